@@ -719,6 +719,9 @@ func (fr *frame) runDefers() {
 	}
 }
 
+// maxTasksPerJoin bounds the goroutines a path may spawn before it joins them.
+const maxTasksPerJoin = 24
+
 type continuation int
 
 const (
@@ -1096,6 +1099,12 @@ func (e *Engine) visitInstr(fr *frame, instr ssa.Instruction) continuation {
 		fr.defers = append(fr.defers, &deferred{fn: fn, args: args, pos: instr.Pos()})
 	case *ssa.Go:
 		fn, args := e.prepareCall(fr, &instr.Call)
+		if len(e.tasks) >= maxTasksPerJoin {
+			// unwinding bound on goroutine-spawning loops: the path is abandoned and
+			// reported, never counted as explored
+			e.note(fmt.Sprintf("unwind-bound: more than %d goroutines spawned before a join", maxTasksPerJoin))
+			panic(pathEnd{"unwind-bound"})
+		}
 		e.tasks = append(e.tasks, &task{fn: fn, args: args, pos: instr.Pos()})
 	case *ssa.MakeChan:
 		fr.env[instr] = &Chan{}
